@@ -20,6 +20,9 @@ func init() {
 			"The Compose/Pipe rule is a sufficient shape (a rewrite outside the two schemes is reported as not established). Not decided: which dynamic values each pattern kind accepts, regex semantics, ordering of concurrent Calls beyond mutual exclusion.",
 		Trusted: commonTrusted,
 		Run:     runC20,
+		Relies: []Dep{
+			{Prop: "C01", Rule: "R2", Keys: []string{"IsNil"}, Floor: 1, Why: "patterns test presence with Maybe.Just(v).IsNil/IsPresent: nil slices/maps/funcs are present values"},
+		},
 	})
 }
 
